@@ -40,6 +40,14 @@ Streams (all randomness from run.seed; case counts fixed per tier):
                 k-th use equals a fresh object in the same configuration and interpolates; every argument form of
                 the factor (python int, numpy scalars, 0-d arrays, tf.constant) through constructor and update API;
                 the module-level sigmoid switch in every order around construction and use (default restored).
+  G  compiled   the quantizer called from a `tf.function` traced once (what the Keras train step does): every
+                knob-bearing class x initial factor {0 in four argument forms, 1/4, 1} x five routes into the
+                variable-backed mode x trace first / eager call first, then updates interleaved with compiled and
+                eager calls; seeded histories with build(T/F) / use_variables flips; Sequential([QActivation(q)]) driven
+                by the real QNoiseScheduler hooks around a compiled training step.  Against `CState.step` (state, what
+                the graph captured) and `mixF` bit for bit; clause oracle with its own bookkeeping: in variable mode
+                the factor IS a tf.Variable after every operation (also judged in A, B, C), and a compiled call
+                returns s + f*(q - s) with the LAST value written.
 """
 import itertools
 import fractions
@@ -277,6 +285,14 @@ def stream_mix(run, tier, Q, tf, rng):
     if o["store"] != want_store:
       run.disagree("mix-storage", {"cfg": label, "route": route}, o["store"], want_store)
       mirrored = False
+      if want_store == "var":
+        # the property's "variable-backed mode": use_variables=True + a call => the factor is in a tf.Variable
+        run.violate("factor_held_in_variable_in_use_variables_mode",
+                    {"how": "first_eager_call", "factor_at_build": _fclass(f if route != "upd_var" else 1.0)},
+                    {"cls": cname, "cfg": label, "form": fname, "route": route, "f": f,
+                     "observed_attribute": "python number", "expected": "tf.Variable",
+                     "replay": "%s(**%r) via route %s with factor %r, then one call: type(q.qnoise_factor)"
+                               % (cname, kw, route, f)}, mirrored=False)
     ym = core.dec_list(out["y"])
     yi = [core.frac(v) for v in y]
     bad = [i for i in range(len(yi)) if yi[i] != ym[i]]
@@ -634,14 +650,29 @@ def stream_storage(run, tier, Q, tf, rng):
       q = _mk(Q, cname, kw, qnoise_factor=f0, use_variables=use_vars0, **ste_kw)
       init = _obs(tf, q)
       steps = []
+      book = _ModeBook(f0, use_vars0)
+      book_bad = None
       for oi, op in enumerate(seq):
         err = _apply(tf, q, op, x1, flip=bool((si + oi) % 2))
         o = _obs(tf, q)
         o["raised"] = err is not None
         o["err"] = err
         steps.append(o)
+        if err is None:
+          book.op(op)
+        if book.var_mode and o["store"] != "var" and book_bad is None:
+          book_bad = oi
       y = _call(q, xb)
+      book.op(("call",))
       fin = _obs(tf, q)
+      if book.var_mode and fin["store"] != "var" and book_bad is None:
+        book_bad = len(seq)
+      if book_bad is not None:
+        run.violate("factor_held_in_variable_in_use_variables_mode",
+                    {"how": book.how, "factor_at_build": _fclass(book.f_at_build)},
+                    {"cls": cname, "cfg": label, "init": init, "ops": [list(o_) for o_ in seq] + [["call"]],
+                     "at": book_bad, "observed_attribute": "python number", "expected": "tf.Variable",
+                     "factor_when_variable_should_have_been_made": book.f_at_build}, mirrored=False)
       lines.append({"op": "storage", "init": init, "ops": [_op_line(op) for op in seq] + [{"op": "call"}]})
       meta.append((label, cname, kw, seq, init, steps, fin, use_ste))
       mix_lines.append({"op": "mix", "form": _form_name(form, use_ste), "s": core.enc_list(s_np),
@@ -1040,7 +1071,19 @@ def stream_sched(run, tier, Q, tf, rng):
     tick = "E" if ft == "epoch" else "B"
     k = 0
     prev = None
+    seen_t = False
     for i, (e, o) in enumerate(zip(ev, steps)):
+      if e == "T" and not o["raised"]:
+        seen_t = True
+      if e == "F" and seen_t and not o["raised"] and o["quantizers"]:
+        pyq = [q for q in o["quantizers"] if q["store"] != "var"]
+        if pyq:
+          run.violate("factor_held_in_variable_in_use_variables_mode",
+                      {"how": "scheduler_then_first_call", "factor_at_build": _fclass(float(core.unrj(pyq[0]["v"])))},
+                      {"cfg": c, "model": mname, "events": "".join(ev), "at": i, "quantizer_tag": pyq[0]["tag"],
+                       "observed_attribute": "python number %r" % float(core.unrj(pyq[0]["v"])),
+                       "expected": "tf.Variable (set_quantizers switched use_variables on)"}, mirrored=mirrored)
+          seen_t = False   # once per history
       if o["raised"]:
         if keras_order:
           run.violate("hook_raises", {"hook": _HOOK.get(e, "forward"), "model": mname, "error": o["err"]},
@@ -2053,6 +2096,365 @@ def stream_reuse(run, tier, Q, tf, rng):
     Q.set_internal_sigmoid("hard")
 
 
+# --------------------------------------------------------------------------- stream G (compiled calls)
+
+class _ModeBook:
+  """the clause oracle's own bookkeeping of one quantizer (no model involved): which value was written last,
+  and whether the quantizer is in variable-backed mode — entered by `build(use_variables=True)` or by the first
+  call of a quantizer whose `use_variables` is on, never left again"""
+
+  def __init__(self, f0, use_vars):
+    self.f = f0
+    self.use_vars = bool(use_vars)
+    self.built = False
+    self.var_mode = False
+    self.how = None          # how the Variable came to be: explicit_build / first_eager_call / first_compiled_call
+    self.f_at_build = None
+
+  def _enter(self, how):
+    self.var_mode = True
+    self.how = how
+    self.f_at_build = self.f
+
+  def op(self, op):
+    k = op[0]
+    if k == "build":
+      if op[1]:
+        self._enter("explicit_build")
+      self.built = True
+    elif k in ("update", "update_from_var"):
+      self.f = op[1]
+    elif k == "set_use_vars":
+      self.use_vars = bool(op[1])
+    elif k in ("call", "ccall"):
+      if not self.built:
+        if self.use_vars:
+          self._enter("first_eager_call" if k == "call" else "first_compiled_call")
+        self.built = True
+
+
+def _gop_line(op):
+  return {"op": "ccall"} if op[0] == "ccall" else _op_line(op)
+
+
+def _gop_text(op):
+  k = op[0]
+  if k == "build":
+    return "q.build(use_variables=%r)" % op[1]
+  if k == "update":
+    return "q.update_qnoise_factor(%r)" % op[1]
+  if k == "update_from_var":
+    return "q.update_qnoise_factor(tf.Variable(%r))" % op[1]
+  if k == "set_use_vars":
+    return "q.use_variables = %r" % op[1]
+  if k == "ccall":
+    return "y = fn(x)"
+  return "q(x)"
+
+
+G_X = np.array([0.3125, -1.75, 0.5, 2.6875, -0.0625, 0.7, 0.13, -0.61, 0.93, 1.7, 0.0, -1.3], dtype=np.float32)
+
+
+def _judge_mix(y, s_np, xq, f, fname):
+  """out = s + f*(q - s) on the real output, exact rationals: exactly where every float32 step of the chain is
+  exact (decided here, not by the model), within the stated tolerance elsewhere.  Returns None or (i, want, kind)"""
+  fe = core.frac(np.float32(f))
+  for i in range(len(y)):
+    s_i, q_i, y_i = core.frac(s_np[i]), core.frac(xq[i]), core.frac(y[i])
+    want = s_i + fe * (q_i - s_i)
+    if _chain_exact(s_i, q_i, fe, fname):
+      if y_i != want:
+        return i, want, "exact"
+    elif abs(y_i - want) > TOL_REL * (abs(s_i) + abs(q_i)):
+      return i, want, "tol"
+  return None
+
+
+def _compiled_refs(run, tf, Q, label, cname, kw, sur, form, x, xt):
+  """surrogate and quantized value as a GRAPH computes them (python-number factors 0 / 1 baked in: `s + 0*(..)` and
+  `0*s + xq` are exact).  They equal the eager / analytic references bit for bit except where graph optimisation
+  rewrites the surrogate itself (quantized_hswish: `x * relu / 6` becomes a multiplication by the reciprocal, one
+  ulp) — stated tolerance 2^-22 relative for that reference only; the mix is judged against these values."""
+  s_np = sur(kw, x)
+  q0 = _mk(Q, cname, kw, qnoise_factor=0.0)
+  s_c = np.asarray(tf.function(lambda t: q0(t))(xt).numpy(), dtype=np.float32).reshape(-1)
+  if form == "linear":
+    xq_c = _xq_ref(Q, cname, kw, form, x)
+  else:
+    q1 = _mk(Q, cname, kw, qnoise_factor=1.0, use_ste=False)
+    xq_c = np.asarray(tf.function(lambda t: q1(t))(xt).numpy(), dtype=np.float32).reshape(-1)
+  xq = _xq_ref(Q, cname, kw, form, x)
+  run.compared += 2
+  for name, a, b in (("surrogate", s_c, s_np), ("quantized", xq_c, xq)):
+    for i in range(len(x)):
+      fa, fb = core.frac(a[i]), core.frac(b[i])
+      ok = fa == fb if cname != "quantized_hswish" else abs(fa - fb) <= TOL_REL * abs(fb)
+      if not ok:
+        run.violate("f0_returns_surrogate" if name == "surrogate" else "f1_returns_quantized",
+                    {"cls": cname, "cfg": label, "form": "ste" if name == "surrogate" else "noste", "route": "compiled_ctor_py"},
+                    {"x": float(x[i]), "observed_compiled": float(a[i]), "expected": float(b[i]),
+                     "replay": "tf.function(%s(**%r, qnoise_factor=%s))(x)" % (cname, kw, "0.0" if name == "surrogate" else "1.0, use_ste=False")},
+                    mirrored=False)
+        break
+  return s_c, xq_c
+
+
+def stream_compiled(run, tier, Q, tf, rng):
+  """the quantizer called from a tf.function (traced once), as the Keras train step does"""
+  cfg = {c[0]: c for c in CONFIGS}
+  x = G_X
+  xt = tf.constant(x, dtype=tf.float32)
+  logger = tf.get_logger()
+  old_level = logger.level
+  logger.setLevel("ERROR")      # tf.function's "retracing" advice: every history makes its own function
+  f0s = [(0.0, "0.0"), (0.25, "0.25"), (1.0, "1.0")]
+  f0_forms = {0.0: [0.0, 0, np.float32(0.0), np.float64(0.0)]}   # the falsy value in several argument forms
+  routes = ["ctor", "update_before_call", "set_use_variables", "explicit_build", "update_then_explicit_build"]
+  tail_fixed = [("ccall",), ("update", 0.5), ("ccall",), ("update", 0.3), ("ccall",), ("call",), ("update", 1.0),
+                ("ccall",), ("update", 0.0), ("ccall",), ("update_from_var", 0.75), ("ccall",)]
+  rand_alpha = [("update", 0.25), ("update", 0.7), ("update", 1.0), ("update", 0.0), ("update_from_var", 0.625),
+                ("call",), ("ccall",), ("ccall",), ("build", False), ("set_use_vars", False), ("set_use_vars", True),
+                ("build", True)]
+  n_rand = 4 if tier == "quick" else 40
+  lines, meta = [], []
+  n_hist = 0
+  refs = {}
+  for label in STORAGE_CFG:
+    _, cname, kw, sur, form = cfg[label]
+    s_np, xq = _compiled_refs(run, tf, Q, label, cname, kw, sur, form, x, xt)
+    refs[label] = (s_np, xq)
+    hists = []
+    for ri, route in enumerate(routes):
+      for fi, (f0, _) in enumerate(f0s):
+        for ti, timing in enumerate(("trace_first", "eager_first")):
+          if timing == "eager_first" and (ri + fi) % 3:
+            continue
+          hists.append((route, f0, timing, list(tail_fixed), True))
+    for k in range(n_rand):
+      route = routes[int(rng.integers(0, len(routes)))]
+      f0 = [0.0, 0.25, 1.0, 0.0][int(rng.integers(0, 4))]
+      n = int(rng.integers(6, 11))
+      tail = [rand_alpha[int(i)] for i in rng.integers(0, len(rand_alpha), size=n)] + [("ccall",)]
+      hists.append((route, f0, "trace_first", tail, bool(k % 2)))
+    # python mode at trace time (use_variables off): the graph legitimately bakes the number in — model tie only
+    hists.append(("python_mode", 0.25, "trace_first", list(tail_fixed), False))
+    hists.append(("python_mode", 0.0, "trace_first", [("ccall",), ("update", 0.5), ("ccall",), ("build", True),
+                                                       ("update", 1.0), ("ccall",), ("call",)], False))
+    for hi, (route, f0, timing, tail, var_ctor) in enumerate(hists):
+      use_ste = None if form == "linear" else bool(hi % 2)
+      fname = _form_name(form, use_ste)
+      ste_kw = {} if use_ste is None else {"use_ste": use_ste}
+      f0_arg = f0
+      if f0 in f0_forms:
+        f0_arg = f0_forms[f0][hi % len(f0_forms[f0])]
+      pre = []
+      if route == "ctor":
+        q = _mk(Q, cname, kw, qnoise_factor=f0_arg, use_variables=True, **ste_kw)
+        ctor_txt = "qnoise_factor=%r, use_variables=True" % (f0_arg,)
+        book = _ModeBook(f0, True)
+      elif route == "update_before_call":
+        q = _mk(Q, cname, kw, use_variables=True, **ste_kw)
+        ctor_txt = "use_variables=True"
+        book = _ModeBook(1.0, True)
+        pre = [("update", f0)]
+      elif route == "set_use_variables":
+        q = _mk(Q, cname, kw, qnoise_factor=f0_arg, **ste_kw)
+        ctor_txt = "qnoise_factor=%r" % (f0_arg,)
+        book = _ModeBook(f0, False)
+        pre = [("set_use_vars", True)]
+      elif route == "explicit_build":
+        q = _mk(Q, cname, kw, qnoise_factor=f0_arg, **ste_kw)
+        ctor_txt = "qnoise_factor=%r" % (f0_arg,)
+        book = _ModeBook(f0, False)
+        pre = [("build", True)]
+      elif route == "update_then_explicit_build":
+        q = _mk(Q, cname, kw, **ste_kw)
+        ctor_txt = ""
+        book = _ModeBook(1.0, False)
+        pre = [("update", f0), ("build", True)]
+      else:
+        q = _mk(Q, cname, kw, qnoise_factor=f0_arg, **ste_kw)
+        ctor_txt = "qnoise_factor=%r" % (f0_arg,)
+        book = _ModeBook(f0, False)
+      if timing == "eager_first":
+        pre = pre + [("call",)]
+      ops = pre + tail
+      init = _obs(tf, q)
+      fn = tf.function(lambda t, q=q: q(t))
+      steps, outs_c = [], []
+      traced_var_mode = None      # was the quantizer in variable mode when the function was traced
+      rebuilt_after_trace = False
+      text = ["q = %s(**%r%s%s)" % (cname, kw, ", " if ctor_txt else "", ctor_txt) +
+              ("" if use_ste is None else "; q.use_ste = %r" % use_ste),
+              "fn = tf.function(lambda x: q(x))"]
+      failed = failed_storage = False
+      for oi, op in enumerate(ops):
+        text.append(_gop_text(op))
+        err, y = None, None
+        try:
+          if op[0] == "ccall":
+            y = np.asarray(fn(xt).numpy(), dtype=np.float32).reshape(-1)
+          else:
+            err = _apply(tf, q, op, x[:1], flip=bool((hi + oi) % 2))
+        except Exception as e:  # pylint: disable=broad-except
+          err = type(e).__name__ + ": " + repr(e)[:160]
+        book.op(op)
+        o = _obs(tf, q)
+        o["raised"] = err is not None
+        steps.append(o)
+        outs_c.append(y)
+        if op[0] == "build" and op[1] and traced_var_mode is not None:
+          rebuilt_after_trace = True
+        if op[0] == "ccall" and traced_var_mode is None and err is None:
+          traced_var_mode = book.var_mode
+        if failed:
+          continue
+        kbase = {"cls": cname, "route": route}
+        hist_txt = "; ".join(text)
+        if err is not None:
+          run.violate("compiled_or_update_api_raises", dict(kbase, op=op[0]),
+                      {"cfg": label, "form": fname, "history": hist_txt, "error": err}, mirrored=False)
+          failed = True
+          continue
+        # (1) storage kind: in variable-backed mode the factor is held in a tf.Variable, whatever its value
+        if book.var_mode and o["store"] != "var" and not failed_storage:
+          failed_storage = True
+          run.violate("factor_held_in_variable_in_use_variables_mode",
+                      {"how": book.how, "factor_at_build": _fclass(book.f_at_build)},
+                      {"cls": cname, "cfg": label, "form": fname, "history": hist_txt,
+                       "observed_attribute": "python number %r" % float(core.unrj(o["v"])),
+                       "expected": "tf.Variable holding %r" % float(np.float32(book.f)),
+                       "factor_when_variable_should_have_been_made": book.f_at_build}, mirrored=False)
+          # not the end of the history: the behavioural clause below is judged on its own
+        # (2) the attribute reads the last value written
+        if core.frac(np.float32(float(core.unrj(o["v"])))) != core.frac(np.float32(book.f)):
+          run.violate("next_call_reads_last_write", {"cls": cname, "final_store": o["store"]},
+                      {"cfg": label, "history": hist_txt, "observed_factor": float(core.unrj(o["v"])),
+                       "expected_factor": float(np.float32(book.f))}, mirrored=False)
+          failed = True
+          continue
+        # (3) the compiled function follows the update API (variable mode at trace time, no explicit re-build since)
+        if op[0] == "ccall" and traced_var_mode and not rebuilt_after_trace:
+          run.count("compiled_judged_f%s" % _fclass(book.f))
+          bad = _judge_mix(y, s_np, xq, book.f, fname)
+          if bad is not None:
+            i, want, kind = bad
+            run.violate("compiled_call_follows_update_api",
+                        {"cls": cname, "route": route},
+                        {"cfg": label, "form": fname, "history": hist_txt, "f_class": _fclass(book.f), "x": float(x[i]), "factor_last_written": book.f,
+                         "attribute_reads": float(core.unrj(o["v"])), "attribute_kind": o["store"],
+                         "surrogate": float(s_np[i]), "quantized": float(xq[i]), "observed": float(y[i]),
+                         "expected": float(want), "regime": kind}, mirrored=False)
+            failed = True
+      n_hist += 1
+      lines.append({"op": "compiled", "init": init, "ops": [_gop_line(op) for op in ops]})
+      meta.append((label, cname, fname, route, f0, ops, init, steps, outs_c, s_np, xq, "; ".join(text)))
+  outs = core.run_driver("C07", lines)
+  mix_lines, mix_meta = [], []
+  for (label, cname, fname, route, f0, ops, init, steps, outs_c, s_np, xq, text), out in zip(meta, outs):
+    skey = "|".join("%s%s" % (op[0][0] + op[0][-1], "" if len(op) == 1 else op[1]) for op in ops)
+    run.case(("compiled", label, fname, route, repr(f0), skey),
+             sample={"stream": "compiled", "history": text} if n_hist and len(run.samples) < 7 else None)
+    run.compared += 1
+    stores = []
+    ok = True
+    for oi, (o, m) in enumerate(zip(steps, out["steps"])):
+      run.count("compiled_cap_%s" % m["cap"])
+      a = (o["store"], core.unrj(o["v"]), o["built"], o["use_vars"])
+      b = (m["store"], core.unrj(m["v"]), m["built"], m["use_vars"])
+      if a != b or o["raised"]:
+        run.disagree("compiled-state", {"cfg": label, "route": route, "history": text, "at": oi},
+                     {k: o[k] for k in ("store", "v", "built", "use_vars", "raised")},
+                     {k: m[k] for k in ("store", "v", "built", "use_vars", "cap")})
+        ok = False
+        break
+      if ops[oi][0] == "ccall" and outs_c[oi] is not None:
+        stores.append((oi, {"store": m["cstore"], "v": m["cstore_v"]}, m["cap"]))
+    if ok and stores:
+      mix_lines.append({"op": "mix_many", "form": fname, "s": core.enc_list(s_np), "q": core.enc_list(xq),
+                        "stores": [st for _, st, _ in stores]})
+      mix_meta.append((label, route, text, stores, outs_c))
+  outs = core.run_driver("C07", mix_lines)
+  for (label, route, text, stores, outs_c), out in zip(mix_meta, outs):
+    for (oi, st, cap), ym in zip(stores, out["ys"]):
+      run.compared += 1
+      ym = core.dec_list(ym)
+      yi = [core.frac(v) for v in outs_c[oi]]
+      if yi != ym:
+        i = [k for k in range(len(yi)) if yi[k] != ym[k]][0]
+        run.disagree("compiled-output", {"cfg": label, "route": route, "history": text, "at": oi, "capture": cap,
+                                         "graph_factor_storage": st, "x": float(G_X[i])},
+                     float(outs_c[oi][i]), float(ym[i]))
+        break
+  run.extra["compiled_histories"] = n_hist
+
+  # ---- the Keras route: QActivation in a model, QNoiseScheduler hooks, a compiled train step
+  from qkeras import QActivation
+  from qkeras.callbacks import QNoiseScheduler
+  n_steps = 0
+  for li, label in enumerate(STORAGE_CFG):
+    _, cname, kw, sur, form = cfg[label]
+    s_np, xq = refs[label]
+    for shape_known in (False, True):
+      for use_ste in ([None] if form == "linear" else [bool((li + int(shape_known)) % 2)]):
+        # the scheduler sets use_ste itself
+        fname = _form_name(form, use_ste)
+        q = _mk(Q, cname, kw)
+        layers = [QActivation(q)]
+        if shape_known:
+          layers = [tf.keras.layers.InputLayer(input_shape=(len(x),))] + layers
+        model = tf.keras.Sequential(layers)
+        start, finish, exponent = 1, 3 + li % 2, [2.0, 1.0, 3.0][li % 3]
+        cb = QNoiseScheduler(start=start, finish=finish, freq_type="step", exponent=exponent,
+                             **({} if use_ste is None else {"use_ste": use_ste}))
+        cb.set_model(model)
+        txt = ("Sequential([%sQActivation(%s(**%r))]); QNoiseScheduler(start=%d, finish=%d, freq_type='step', "
+               "exponent=%r%s); on_train_begin(); train_step = tf.function(lambda x: model(x, training=True)); per "
+               "step: on_train_batch_begin(step); train_step(x)"
+               % ("InputLayer, " if shape_known else "", cname, kw, start, finish, exponent,
+                  "" if use_ste is None else ", use_ste=%r" % use_ste))
+        key = {"cls": cname, "model_built_before_training": shape_known}
+        try:
+          cb.on_train_begin()
+          step_fn = tf.function(lambda t, model=model: model(t, training=True))
+          prev = None
+          storage_reported = False
+          for step in range(finish + 2):
+            cb.on_train_batch_begin(step)
+            y = np.asarray(step_fn(xt[None, :]).numpy(), dtype=np.float32).reshape(-1)
+            n_steps += 1
+            run.case(("compiled-keras", label, shape_known, step))
+            fcb = float(cb.qnoise_factor)
+            o = _obs(tf, q)
+            if o["store"] != "var" and not storage_reported:
+              storage_reported = True
+              run.violate("factor_held_in_variable_in_use_variables_mode",
+                          {"how": "scheduler_then_first_compiled_call" if not shape_known else "scheduler_rebuild",
+                           "factor_at_build": "0" if not shape_known else "1"},
+                          {"history": txt, "step": step, "observed_attribute": "python number %r" % float(core.unrj(o["v"]))},
+                          mirrored=False)
+            if step < start and fcb != 0.0 or step >= finish and fcb != 1.0 or (prev is not None and fcb < prev):
+              run.violate("scheduled_factor_shape", key, {"history": txt, "step": step, "factor": fcb,
+                                                          "previous": prev}, mirrored=False)
+              break
+            prev = fcb
+            bad = _judge_mix(y, s_np, xq, fcb, fname)
+            if bad is not None:
+              i, want, kind = bad
+              run.violate("compiled_train_step_follows_scheduled_factor", key,
+                          {"history": txt, "step": step, "scheduled_factor": fcb,
+                           "attribute_reads": float(core.unrj(o["v"])), "x": float(x[i]), "surrogate": float(s_np[i]),
+                           "quantized": float(xq[i]), "observed": float(y[i]), "expected": float(want),
+                           "regime": kind}, mirrored=False)
+              break
+        except Exception as e:  # pylint: disable=broad-except
+          run.violate("hook_raises", {"hook": "compiled_train_step", "model": "QActivation_%s" % cname,
+                                      "error": type(e).__name__}, {"history": txt, "error": repr(e)[:200]},
+                      mirrored=False)
+  run.extra["compiled_keras_steps"] = n_steps
+  logger.setLevel(old_level)
+
+
 # --------------------------------------------------------------------------- entry
 
 def run(run: core.Run, tier: str):
@@ -2092,7 +2494,14 @@ def run(run: core.Run, tier: str):
       "(configuration, form, route, factor). F: 11 configurations x use_ste x 2 (thorough 8) seeded histories of 9 "
       "(14) reconfigurations of ONE object, each followed by a probe call on a tensor of rank 1-5 or through a "
       "QActivation layer, compared with a fresh twin; 6 classes x use_ste x {0, 1, 1/4, 0.3} x 7 argument forms x "
-      "{constructor, update on python storage, update on Variable storage}; internal sigmoid modes x 3 orders.")
+      "{constructor, update on python storage, update on Variable storage}; internal sigmoid modes x 3 orders. "
+      "G: 6 classes x use_ste (alternating) x initial factor {0 as 0.0 / 0 / np.float32 / np.float64, 1/4, 1} x 5 routes "
+      "into variable mode (constructor, update before first call, use_variables set afterwards, explicit build, update "
+      "then build) x {compiled call first, eager call first (a third)} followed by update(1/2), update(0.3), eager call, "
+      "update(1), update(0), update(<tf.Variable 3/4>), each followed by a call through ONE tf.function; 4 (40 "
+      "thorough) seeded histories per class over updates / calls / compiled calls / build(T/F) / use_variables flips; 2 "
+      "python-mode histories per class; 12 Keras models (QActivation, input shape known or not) x QNoiseScheduler step "
+      "schedules with a compiled training step; non-trivial = distinct (class, form, route, factor, history).")
   stream_mix(run, tier, Q, tf, rng)
   stream_storage(run, tier, Q, tf, rng)
   stream_sched(run, tier, Q, tf, rng)
@@ -2100,6 +2509,7 @@ def run(run: core.Run, tier: str):
   stream_alias(run, tier, Q, tf, rng)
   stream_lattice(run, tier, Q, tf, rng)
   stream_reuse(run, tier, Q, tf, rng)
+  stream_compiled(run, tier, Q, tf, rng)
   run.assumptions += [
       "TF eager elementwise float32 kernels (neg, add, sub, mul) are correctly rounded IEEE operations applied "
       "one at a time (device 1); python float arithmetic is IEEE float64",
@@ -2110,6 +2520,9 @@ def run(run: core.Run, tier: str):
       "tf.stop_gradient is the identity on values (gradients are property C06)",
       "a float64 tf.Tensor as qnoise_factor is rejected by TensorFlow's own dtype rule (float32 * float64) and is "
       "not generated; QNoiseScheduler(log_dir=...) is not exercised",
+      "stream G: a tf.function executes the graph it traced; graph-mode float32 kernels equal the eager ones (checked: "
+      "compiled python-constant references equal the eager references bit for bit, quantized_hswish's surrogate within "
+      "2^-22 relative because graph optimisation rewrites its division by a constant)",
       "stream E: a tf.Variable handed to the CONSTRUCTOR (explicit sharing requested by the caller) and mutable "
       "0-d numpy arrays handed to the update API and later mutated in place by the caller are outside the "
       "generated histories (see notes/C07.md)",
